@@ -94,7 +94,7 @@ static void run_flow(const vh::Json& segs, uint32_t isn, bool v6, vh::Out& out, 
     out.end();
 }
 
-struct LegacyRec { std::vector<uint8_t> got; bool server; int ended; };
+struct LegacyRec { std::vector<uint8_t> got, other; bool server; int ended; };
 // --own 1 (C12, spec/pdu/Holders + HolderTrace): what the user's packet looks like before and after the follower saw it,
 // whether its parent links are sound, and whether anything is leaked once the follower is gone
 static void view(vh::W& w, const char* key, PDU* top) { w.key(key).A(); for (PDU* q = top; q; q = q->inner_pdu()) w.A().v((long)q->pdu_type()).v((long)q->header_size()).E(); w.E(); }
@@ -102,10 +102,14 @@ static bool links_ok(PDU* top) { if (top->parent_pdu()) return false; for (PDU* 
 static void run_legacy(const vh::Json& segs, uint32_t isn, bool server_dir, vh::Out& out, const std::string& cfg, vh::Rng& rng, bool own) {
     out.begin(cfg + ",\"obj\":\"" + (server_dir ? "legacy_s" : "legacy_c") + "\"" + (own ? ",\"ip\":" + std::to_string((long)PDU::IP) + ",\"raw\":" + std::to_string((long)PDU::RAW) : std::string()));
     std::unique_ptr<TCPStreamFollower> fol_p(new TCPStreamFollower()); TCPStreamFollower& fol = *fol_p; LegacyRec rec; rec.server = server_dir; rec.ended = 0;
-    auto data_fun = [&](TCPStream& s) { TCPStream::payload_type& p = rec.server ? s.server_payload() : s.client_payload(); rec.got.insert(rec.got.end(), p.begin(), p.end()); p.clear(); };
+    auto data_fun = [&](TCPStream& s) { TCPStream::payload_type& p = rec.server ? s.server_payload() : s.client_payload(); rec.got.insert(rec.got.end(), p.begin(), p.end()); p.clear();
+                                         TCPStream::payload_type& q = rec.server ? s.client_payload() : s.server_payload(); rec.other.insert(rec.other.end(), q.begin(), q.end()); q.clear(); };
     auto end_fun = [&](TCPStream&) { rec.ended++; };
     const char* C = "192.168.0.1"; const char* S = "192.168.0.2";
-    uint32_t other = 0x12345678u;
+    // the opposite direction carries data of its own (three 4-octet segments, the middle one first so that it waits in that
+    // direction's buffer), at sequence numbers far from, just ahead of, or just behind the direction under test
+    uint32_t other = 0x12345678u; { int k = (int)rng.below(4); if (k == 1) other = isn + rng.below(12); else if (k == 2) other = isn - 1 - rng.below(40); else if (k == 3) other = isn + 0x80000000u; }
+    const bool both_dirs = rng.below(3) != 0;
     bool followed = false;      // a stream for this 4-tuple exists (from the SYN until both sides have finished)
     auto feed = [&](PDU& pdu) { std::vector<PDU*> v(1, &pdu);
         vh::W ow; if (own) { ow.O().kv("e", "feed").kv("holder", "follower").kv("status", "").kv("followed", followed && rec.ended == 0); view(ow, "before", &pdu); }
@@ -114,8 +118,13 @@ static void run_legacy(const vh::Json& segs, uint32_t isn, bool server_dir, vh::
     // handshake: the direction under test starts its data at `isn`
     { TCP t(80, 4000); t.flags(TCP::SYN); t.seq(server_dir ? other - 1 : isn - 1); EthernetII p = EthernetII() / IP(S, C) / t; feed(p); followed = true; }
     { TCP t(4000, 80); t.flags(TCP::SYN | TCP::ACK); t.seq(server_dir ? isn - 1 : other - 1); t.ack_seq(server_dir ? other : isn); EthernetII p = EthernetII() / IP(C, S) / t; feed(p); }
+    const int oorder[3] = {1, 0, 2}; int onext = 0;
+    auto feed_other = [&]() { if (!both_dirs || onext >= 3) return; int c = oorder[onext++]; std::vector<uint8_t> ob(4, (uint8_t)(0xd0 + c));
+        TCP t(server_dir ? 80 : 4000, server_dir ? 4000 : 80); t.flags(TCP::ACK); t.seq(other + 4 * (uint32_t)c);
+        EthernetII p = EthernetII() / (server_dir ? IP(S, C) : IP(C, S)) / t / RawPDU(ob.begin(), ob.end()); feed(p); };
     for (size_t i = 0; i < segs.size(); ++i) {
         long off = segs[i][0].num(), len = segs[i][1].num();
+        if (rng.coin()) feed_other();
         rec.got.clear();
         std::vector<uint8_t> b = seg_bytes(off, len);
         TCP t(server_dir ? 4000 : 80, server_dir ? 80 : 4000); t.flags(TCP::ACK); t.seq(isn + (uint32_t)off);
